@@ -257,6 +257,10 @@ func checkC15(c c15Case, r *vcore.Rec) *vcore.Failure {
 		}
 	}
 	// full sync of B
+	preLines := map[string]bool{}
+	for _, l := range strings.Split(s.OwnState(), "\n") {
+		preLines[l] = true
+	}
 	s.Load(c.B)
 	s.PM.Run()
 	if f := rej("full sync of B"); f != nil {
@@ -328,30 +332,38 @@ func checkC15(c c15Case, r *vcore.Rec) *vcore.Failure {
 				return vcore.Failf("c15:stale_hook_after_ip_change", "after a pod's address changed the hook rule for its previous address is still installed:\n%s", got)
 			}
 		}
-		// classification (K4): do got and want differ only in members of hash:net sets (an element whose nomatch flag changed)?
-		onlyNet := true
+		// classification (K4): once the K2/K3 lines are set aside, do got and want differ only in members of hash:net sets whose
+		// nomatch flag changed between the state before this sync and the wanted state (the member is then missing altogether)?
+		onlyFlag := true
 		diffLines := 0
-		gotLines := map[string]bool{}
-		for _, l := range strings.Split(got, "\n") {
-			gotLines[l] = true
+		restLines := map[string]bool{}
+		for _, l := range strings.Split(rest, "\n") {
+			restLines[l] = true
 		}
-		for l := range gotLines {
-			if !wantLines[l] {
+		flip := func(l string) string {
+			if strings.HasSuffix(l, " nomatch") {
+				return strings.TrimSuffix(l, " nomatch")
+			}
+			return l + " nomatch"
+		}
+		isNet := func(l string) bool {
+			return strings.HasPrefix(l, "add GLX-snet-") || strings.HasPrefix(l, "add GLX-dnet-")
+		}
+		for l := range restLines {
+			if l != "" && !wantLines[l] {
 				diffLines++
-				if !(strings.HasPrefix(l, "add GLX-snet-") || strings.HasPrefix(l, "add GLX-dnet-")) {
-					onlyNet = false
-				}
+				onlyFlag = false
 			}
 		}
 		for l := range wantLines {
-			if !gotLines[l] {
+			if l != "" && !restLines[l] {
 				diffLines++
-				if !(strings.HasPrefix(l, "add GLX-snet-") || strings.HasPrefix(l, "add GLX-dnet-")) {
-					onlyNet = false
+				if !(isNet(l) && preLines[flip(l)]) {
+					onlyFlag = false
 				}
 			}
 		}
-		if onlyNet && diffLines > 0 {
+		if onlyFlag && diffLines > 0 {
 			return vcore.Failf("c15:convergence:ipset_nomatch_flag_change", "after a full sync a hash:net set differs from the one derived from the current "+
 				"policies: an element whose nomatch flag changed between syncs is added with the new flag and then deleted by the stale-entry "+
 				"cleanup (entries are compared with options but deleted without):\n--- got\n%s--- from empty\n%s", got, want)
